@@ -39,7 +39,7 @@ Deal(p) == /\ Len(got) < MaxDeals
 CommitVal(c, d) == dealt + d
 CommitLoad(c) == /\ cpc[c] = "idle"
                   /\ \E d \in Ahead :
-                       /\ committed' = CommitVal(c, d)
+                       /\ committed' = IF CommitVal(c, d) > committed THEN CommitVal(c, d) ELSE committed   \* never moves back (D27)
                        /\ cval' = [cval EXCEPT ![c] = CommitVal(c, d)]
                        /\ cpre' = [cpre EXCEPT ![c] = dealt]
                        /\ H([a |-> "CommitLoad", p |-> c, v |-> CommitVal(c, d)])
@@ -60,8 +60,8 @@ Spec == Init /\ [][Next]_vars
 \* no revision is handed out twice; along one dealer they increase
 UniqueDeals == \A i, j \in 1..Len(got) : i # j => got[i].v # got[j].v
 DealsIncrease == \A i, j \in 1..Len(got) : i < j => got[i].v < got[j].v
-\* the allocator never goes back
-AllocatorMonotone == [][dealt' >= dealt]_vars
+\* the allocator never goes back, and neither does the published revision
+AllocatorMonotone == [][dealt' >= dealt /\ committed' >= committed]_vars
 
 Done == Len(got) = MaxDeals /\ \A c \in Committers : cpc[c] = "done"
 Dump == Done => PrintT(<<"BEHAVIOUR", ToJson([steps |-> hist])>>)
